@@ -44,10 +44,11 @@ def row_key(draw, n):
     hi = draw(st.one_of(st.integers(lo, n), st.just(min(n, lo + 1)), st.just(n)))
     if hi == lo + 1 and draw(st.booleans()):
         return lo, hi, {"scalar": lo if draw(st.booleans()) else lo - n}
-    s_opts = [lo] + ([lo - n] if lo < n else []) + ([None] if lo == 0 else [])
+    # negative bounds that reach beyond the start of the table stop at row 0, as for arrays: t[-(n+k):] is t[0:]
+    s_opts = [lo] + ([lo - n] if lo < n else []) + ([None, -n - 1, -n - 9] if lo == 0 else [])
     e_opts = [hi] + ([hi - n] if 0 < hi < n else []) + ([None] if hi == n else [])
     if hi == 0:
-        e_opts = [0] + ([-n] if n > 0 else [])
+        e_opts = [0] + ([-n, -n - 1, -n - 9] if n > 0 else [])
     return lo, hi, {"slice": [draw(st.sampled_from(s_opts)), draw(st.sampled_from(e_opts))]}
 
 
